@@ -82,11 +82,14 @@ pub fn check(c: &Case) -> Verdict {
     let mut emitted = 0u32;
     let mut flushes = 0;
     let mut entry_after_two_flushes = false;
+    let mut overflow_rejected = false;
     macro_rules! bad {
         ($sig:expr, $($arg:tt)*) => { return Verdict::viol(format!("C09:{}", $sig), format!($($arg)*)) };
     }
     for (step, op) in c.ops.iter().enumerate() {
         let pos_before = dest.pos();
+        let len_before = buffer.position();
+        let mut overflow_op = false;
         let mut is_flush = false;
         match op {
             Op::GrowBytes(b) => {
@@ -119,8 +122,12 @@ pub fn check(c: &Case) -> Verdict {
                 is_flush = true;
             }
             Op::FlushEntry { ty, size, rva } | Op::EntryOnly { ty, size, rva } => {
-                if emitted >= c.index_length as u32 {
-                    continue; // caller contract: never more entries than the directory has
+                // more entries than the directory was created with: one case in eight goes on emitting (the
+                // writer may refuse, but whatever it accepts must reach image and destination alike)
+                let overflow = emitted >= c.index_length as u32;
+                overflow_op = overflow;
+                if overflow && (c.pre as u64 + p0 + c.index_length as u64) % 8 != 0 {
+                    continue;
                 }
                 let ent = MDRawDirectory {
                     stream_type: *ty,
@@ -129,11 +136,19 @@ pub fn check(c: &Case) -> Verdict {
                 let slot = c.pre as u64 + 12 * emitted as u64;
                 if matches!(op, Op::FlushEntry { .. }) {
                     if let Err(e) = dir.write_to_file(&mut buffer, Some(ent)) {
+                        if overflow {
+                            overflow_rejected = true;
+                            break;
+                        }
                         bad!("flush-error", "step {step}: {e:?}");
                     }
                     is_flush = true;
                 } else {
                     if let Err(e) = dir.dump_dir_entry(&mut buffer, ent) {
+                        if overflow {
+                            overflow_rejected = true;
+                            break;
+                        }
                         bad!("entry-error", "step {step}: {e:?}");
                     }
                     if dest.pos() != pos_before {
@@ -157,7 +172,8 @@ pub fn check(c: &Case) -> Verdict {
         }
         if is_flush {
             flushes += 1;
-            flushed = buffer.position();
+            // (an entry beyond the directory may have grown the image AFTER the flush part of the call)
+            flushed = if overflow_op { len_before } else { buffer.position() };
             if dest.pos() != p0 + flushed {
                 bad!("position-after-flush", "step {step}: destination position {} expected {}", dest.pos(), p0 + flushed);
             }
@@ -200,6 +216,11 @@ pub fn check(c: &Case) -> Verdict {
     let nt = if p0 > 0 && entry_after_two_flushes { Some(fp_json(c)) } else { None };
     let mut classes = vec![format!("p0:{:?}", std::mem::discriminant(&c.p0)).replace("Discriminant", "")];
     classes.clear();
+    if overflow_rejected {
+        classes.push("entry-beyond-the-directory-rejected".to_string());
+    } else if emitted > c.index_length as u32 {
+        classes.push("more-entries-than-directory-slots".to_string());
+    }
     classes.push(match c.p0 { P0::Zero => "p0=0", P0::One => "p0=1", P0::Mid => "p0=mid", P0::Len => "p0=len", P0::Beyond(_) => "p0>len" }.to_string());
     if entry_after_two_flushes {
         classes.push("entry-after>=2-flushes".into());
@@ -361,7 +382,7 @@ pub fn run(ctx: &mut LaneCtx) {
         },
         check_dump,
     );
-    ctx.assume("caller contract respected by the generator: never more directory entries than the directory was created with; image only grows by appends between flushes");
+    ctx.assume("one history in eight goes on emitting entries after the directory is full (the writer may reject them; what it accepts must reach image and destination alike); image only grows by appends between flushes");
     ctx.run_sub(
         SubSpec {
             name: "dirsection-history",
